@@ -111,6 +111,8 @@ def chan_record(ch):
         "maxAmp": -1 if ch.max_amp is None else q(ch.max_amp),
         "maxDet": -1 if ch.max_abs_detuning is None else q(ch.max_abs_detuning),
         "minAvg": q(ch.min_avg_amp),
+        "bottom": 1 if getattr(ch, "bottom_detuning", None) is None else q(ch.bottom_detuning),
+        "tbottom": 1 if getattr(ch, "total_bottom_detuning", None) is None else q(ch.total_bottom_detuning),
     }
 
 
